@@ -36,6 +36,8 @@ type Facts struct {
 	PanicSitesError  string         `json:"panicSitesError,omitempty"`
 	V4ValTypes       []string       `json:"v4valTypes,omitempty"` // DHCPv4 value types with a FromBytes method
 	MissT  map[string]string   `json:"missing_types,omitempty"` // Lean type of a missing fact when not Nat
+	Prov   *provenanceOut      `json:"provenance,omitempty"`
+	Read   *ReadFacts          `json:"readOnly,omitempty"` // C20 effect table with evidence (effects.go)
 }
 
 var facts = Facts{Nat: map[string]int64{}, Bytes: map[string][]int64{}, Tables: map[string][][2]any{}, Bools: map[string]bool{}, Strs: map[string][]string{}, MissT: map[string]string{}}
@@ -236,9 +238,12 @@ func (p *Pkg) factVarBytes(name, ident string) {
 	miss(name)
 }
 
+var loadedInitial []*packages.Package
+var loadedFset *token.FileSet
+
 func load(dir string, pats ...string) map[string]*Pkg {
 	cfg := &packages.Config{
-		Mode: packages.NeedName | packages.NeedFiles | packages.NeedSyntax | packages.NeedTypes | packages.NeedTypesInfo | packages.NeedImports | packages.NeedDeps,
+		Mode: packages.NeedName | packages.NeedFiles | packages.NeedSyntax | packages.NeedTypes | packages.NeedTypesInfo | packages.NeedImports | packages.NeedDeps | packages.NeedTypesSizes,
 		Dir:  dir,
 		Env:  append(os.Environ(), "GOFLAGS=-mod=mod", "GOPROXY=off", "GOSUMDB=off", "GOTOOLCHAIN=local"),
 	}
@@ -247,7 +252,12 @@ func load(dir string, pats ...string) map[string]*Pkg {
 		fmt.Fprintln(os.Stderr, "load:", err)
 		os.Exit(2)
 	}
+	loadedInitial = pkgs
+	if len(pkgs) > 0 {
+		loadedFset = pkgs[0].Fset
+	}
 	out := map[string]*Pkg{}
+	loadedPkgs = pkgs
 	for _, p := range pkgs {
 		if len(p.Errors) > 0 {
 			fmt.Fprintln(os.Stderr, "package errors:", p.PkgPath, p.Errors)
@@ -259,6 +269,9 @@ func load(dir string, pats ...string) map[string]*Pkg {
 }
 
 const mod = "github.com/insomniacslk/dhcp"
+
+// loadedPkgs: the initial packages as loaded (effects.go builds go/ssa from them).
+var loadedPkgs []*packages.Package
 
 func main() {
 	repo := "/repo"
@@ -279,7 +292,7 @@ func main() {
 			panicBaseline = os.Args[i]
 		}
 	}
-	pkgs := load(repo, "./dhcpv4", "./dhcpv6", "./rfc1035label", "./iana", "./dhcpv4/nclient4", "./dhcpv6/nclient6", "./dhcpv4/server4", "./dhcpv6/server6")
+	pkgs := load(repo, "./dhcpv4", "./dhcpv6", "./rfc1035label", "./iana", "./dhcpv4/nclient4", "./dhcpv6/nclient6", "./dhcpv4/server4", "./dhcpv6/server6", uioPath)
 	extractV4(pkgs[mod+"/dhcpv4"])
 	extractMore(pkgs)
 	if outJSON != "" || panicBaseline != "" {
@@ -293,6 +306,10 @@ func main() {
 	for _, f := range extraExtractors {
 		f(pkgs)
 	}
+	extractProvenance(loadedInitial, loadedFset)
+	facts.Prov = provOut
+	extractEffects(loadedPkgs)
+	facts.Read = readFacts
 
 	js, _ := json.MarshalIndent(facts, "", " ")
 	if outJSON != "" {
@@ -382,6 +399,34 @@ func renderLean() string {
 		}
 		fmt.Fprintf(&b, "def %s : Option (List String) := some [%s]\n", k, strings.Join(parts, ", "))
 	}
+	keys = keys[:0]
+	for k := range strBoolTables {
+		keys = append(keys, k)
+	}
+	sort.Strings(keys)
+	for _, k := range keys {
+		parts := make([]string, len(strBoolTables[k]))
+		for i, e := range strBoolTables[k] {
+			parts[i] = fmt.Sprintf("(%q, %v)", e[0], e[1])
+		}
+		fmt.Fprintf(&b, "def %s : Option (List (String × Bool)) := some [\n  %s]\n", k, strings.Join(parts, ",\n  "))
+	}
+	keys = keys[:0]
+	for k := range strLists {
+		keys = append(keys, k)
+	}
+	sort.Strings(keys)
+	for _, k := range keys {
+		parts := make([]string, len(strLists[k]))
+		for i, e := range strLists[k] {
+			parts[i] = fmt.Sprintf("%q", e)
+		}
+		fmt.Fprintf(&b, "def %s : Option (List String) := some [%s]\n", k, strings.Join(parts, ", "))
+	}
+	sort.Strings(missStrBool)
+	for _, k := range missStrBool {
+		fmt.Fprintf(&b, "def %s : Option (List (String × Bool)) := none -- ANALYSIS FAILED\n", k)
+	}
 	sort.Strings(facts.Miss)
 	for _, k := range facts.Miss {
 		// An anchor the extractor could not find: the obligation that uses it
@@ -392,6 +437,7 @@ func renderLean() string {
 		}
 		fmt.Fprintf(&b, "def %s : Option %s := none -- ANCHOR NOT FOUND\n", k, typ)
 	}
+	renderReadEffects(&b)
 	b.WriteString("\nend Dhcp.Gen\n")
 	return b.String()
 }
